@@ -13,8 +13,37 @@ def truth_of(op, order):
     return {"lt": order < 0, "le": order <= 0, "gt": order > 0, "ge": order >= 0, "eq": order == 0, "ne": order != 0}[op]
 
 
-def classify(term, NEW="new", OLD="existing"):
-    """(field, op, swapped) when the term compares new.<field> with existing.<field>"""
+def _copy_root(body, t):
+    """replace the root variable of a field path by the variable it is a plain copy / reborrow of (`let incoming = new;`,
+    the parameter binding of an inlined helper); a variable bound to a computed value stays"""
+    path = []
+    u = t
+    while u[0] in ("field", "deref", "ref"):
+        if u[0] == "field":
+            path.append(u[2])
+        u = u[1]
+    seen = set()
+    while u[0] == "var" and len(u) > 2 and u[2] not in seen:
+        seen.add(u[2])
+        ds = body.var_defs(u)
+        if len(ds) != 1:
+            break
+        d = ds[0]
+        while d[0] in ("ref", "deref", "cast"):
+            d = d[1]
+        if d[0] in ("var", "param") and len(d) > 2 and not mir._is_loop_item(ds[0]):
+            u = d
+        else:
+            break
+    out = u
+    for f in reversed(path):
+        out = ("field", out, f)
+    return out
+
+
+def classify(term, NEW="new", OLD="existing", body=None):
+    """(field, op, swapped) when the term compares new.<field> with existing.<field>; the two versions may be reached
+    through copies (the parameters of a helper that was analysed inlined): roots are resolved with body.origin"""
     t = term
     if t[0] == "bin" and t[1] in BIN:
         op, a, b = BIN[t[1]], t[2], t[3]
@@ -22,6 +51,8 @@ def classify(term, NEW="new", OLD="existing"):
         op, a, b = CMP_CALL.search(t[1]).group(1), t[2][0], t[2][1]
     else:
         return None
+    if body is not None:
+        a, b = _copy_root(body, a), _copy_root(body, b)
     pa, pb = field_path(a), field_path(b)
     fa, fb = pa.split(".")[-1], pb.split(".")[-1]
     if fa != fb:
@@ -34,45 +65,102 @@ def classify(term, NEW="new", OLD="existing"):
     return None
 
 
-def walk(b, start, case, stop, outcomes_re, N, limit=2000):
-    """follow the CFG from `start` deciding every comparison of new.* with existing.* by `case`;
-    returns the set of outcome callee names met before `stop` blocks"""
+def walk(b, start, case, stop, outcomes_re, N, limit=4000):
+    """follow the CFG from `start` deciding every comparison of new.* with existing.* by `case`; booleans that hold the result
+    of such a comparison (`let older = new.mdate < existing.mdate`, the return value of an inlined `fn is_superseded(..) -> bool`)
+    and constants are tracked along the path.  Returns the set of outcome callee names met before `stop` blocks."""
     out = set()
     unknown = []
     seen = set()
-    work = [start]
+    work = [(start, ())]
     succ = b.succs()
+
+    def cmp_value(t):
+        t0 = t
+        neg = False
+        while t0[0] == "un" and t0[1] == "Not":
+            t0 = t0[2]
+            neg = not neg
+        while t0[0] in ("ref", "deref"):
+            t0 = t0[1]
+        cl = classify(t0, N["new"], N["old"], b)
+        if cl is None or cl[0] not in case:
+            return None
+        f, op, swapped = cl
+        v = truth_of(op, -case[f] if swapped else case[f])
+        return (not v) if neg else v
+
     while work and limit > 0:
         limit -= 1
-        x = work.pop()
-        if x in seen or x in stop:
+        x, stt = work.pop()
+        if (x, stt) in seen or x in stop:
             continue
-        seen.add(x)
-        t = b.blocks[x]["t"]
+        seen.add((x, stt))
+        st = dict(stt)
+        bl = b.blocks[x]
+        for si, s_ in enumerate(bl["s"]):
+            lhs = s_["lhs"]
+            if len(lhs) != 1:
+                st.pop(lhs[0], None)
+                continue
+            rv = s_["rv"]
+            val = None
+            if rv["r"] == "use":
+                o = rv["o"]
+                if "k" in o and o["k"].get("v") in (True, False) and o["k"].get("ty") == "bool":
+                    val = o["k"]["v"]
+                else:
+                    q = o.get("c") or o.get("m")
+                    if q and len(q) == 1 and q[0] in st:
+                        val = st[q[0]]
+            elif rv["r"] == "un" and rv["op"] == "Not":
+                q = rv["o"].get("c") or rv["o"].get("m")
+                if q and len(q) == 1 and q[0] in st:
+                    val = not st[q[0]]
+            if val is None and rv["r"] in ("bin", "un"):
+                val = cmp_value(b.def_term(x, si, rv, 0))
+            if val is None:
+                st.pop(lhs[0], None)
+            else:
+                st[lhs[0]] = val
+        t = bl["t"]
         if t["k"] == "call":
             n = callee_name(t)
             if re.search(outcomes_re, n) and mir.mentions(b.call_args(x)[0], N["ids"]):
                 out.add(n.split("::")[-1])
                 continue   # the decision is taken
+            d = t["dest"]
+            v = cmp_value(b.def_term(x, None, t, 0)) if len(d) == 1 else None
+            if d:
+                st.pop(d[0], None)
+            if v is not None:
+                st[d[0]] = v
+        key = tuple(sorted(st.items()))
         if t["k"] == "switch" and len(succ[x]) > 1:
-            term = b.switch_term(x, expand_vars=False)
+            dpl = t["d"].get("c") or t["d"].get("m")
             chosen = None
-            for tg, vals in rights.switch_edges(b, x):
-                atom, tr = mir.cond_atoms(term, vals)
-                cl = classify(atom, N["new"], N["old"])
-                if cl is None:
-                    break
-                f, op, swapped = cl
-                if f not in case:
-                    break
-                order = -case[f] if swapped else case[f]
-                if truth_of(op, order) == tr:
-                    chosen = tg
+            if dpl and len(dpl) == 1 and dpl[0] in st:
+                want = 1 if st[dpl[0]] else 0
+                for tv, tg in t["targets"]:
+                    if tv == want:
+                        chosen = tg
+                if chosen is None:
+                    chosen = t["otherwise"]
+            else:
+                term = b.switch_term(x, expand_vars=False)
+                for tg, vals in rights.switch_edges(b, x):
+                    atom, tr = mir.cond_atoms(term, vals)
+                    v = cmp_value(atom)
+                    if v is None:
+                        break
+                    if v == tr:
+                        chosen = tg
             if chosen is not None:
-                work.append(chosen)
+                work.append((chosen, key))
                 continue
             unknown.append(x)
-        work.extend(succ[x])
+        for sx in succ[x]:
+            work.append((sx, key))
     return out, unknown
 
 
